@@ -92,6 +92,8 @@ type Source struct {
 	closed   bool
 	addr     string
 	Default  *Plan // used when the plans are exhausted (nil: refuse)
+	// Role reported by INFO ("" = master)
+	Role string
 	// RequireAuth: commands on a connection that has not authenticated are answered with -NOAUTH
 	// (off by default: component-level checks drive single connections without the AUTH step)
 	RequireAuth bool
@@ -339,7 +341,11 @@ func (s *Source) serve(c *Conn) {
 				}
 				startCh <- steps
 			case "info":
-				body := "# Replication\r\nrole:master\r\n"
+				role := s.Role
+				if role == "" {
+					role = "master"
+				}
+				body := "# Replication\r\nrole:" + role + "\r\n"
 				c.c.Write([]byte(fmt.Sprintf("$%d\r\n%s\r\n", len(body), body)))
 			default:
 				c.c.Write([]byte("+OK\r\n"))
